@@ -478,6 +478,28 @@ class Item(ItemConfig):
 
         child_exclusion_map = CaseInsensitiveDict()
         import_map = get_all_import_map(self.scope_ir)
+
+        def _get_procedure_scope_name(name):
+            # The name of the scope in which the procedure or interface `name` is declared,
+            # consistent with the item name that ItemFactory derives for it
+            if name in import_map:
+                return import_map[name].module
+            scope, imports = self.scope_ir, ()
+            while scope is not None and not isinstance(scope, Module):
+                if isinstance(scope, Subroutine) and name in scope.subroutine_map:
+                    # An internal procedure
+                    return self.scope_name
+                imports += as_tuple(getattr(scope, 'imports', ()))
+                scope = scope.parent
+            if scope is None or name in scope.subroutine_map or name in scope.interface_map:
+                # Not embedded in a module, or declared in the enclosing module
+                return self.scope_name
+            if any(not (imprt.symbols or imprt.rename_list) for imprt in imports + as_tuple(scope.imports)):
+                # May be provided by an unqualified import
+                return self.scope_name
+            # A procedure that is not declared in a module
+            return ''
+
         for dependency in dependencies:
             if isinstance(dependency, Import):
                 # Exclude all imported symbols if the module is excluded, otherwise
@@ -493,10 +515,7 @@ class Item(ItemConfig):
 
             elif isinstance(dependency, Interface):
                 for symbol in dependency.symbols:
-                    if symbol.name in import_map:
-                        scope = import_map[symbol.name].module
-                    else:
-                        scope = self.scope_name
+                    scope = _get_procedure_scope_name(symbol.name)
                     _add_new_child(
                         symbol.name,
                         self.match_symbol_or_name(symbol, exclude, scope=scope),
@@ -544,10 +563,7 @@ class Item(ItemConfig):
                     is_excluded = is_excluded or self.match_symbol_or_name(symbol, exclude, scope=scope)
 
                 else:
-                    if symbol.name in import_map:
-                        scope = import_map[symbol.name].module
-                    else:
-                        scope = self.scope_name
+                    scope = _get_procedure_scope_name(symbol.name)
                     is_excluded = self.match_symbol_or_name(symbol, exclude, scope=scope)
 
                 _add_new_child(symbol.name, is_excluded, child_exclusion_map)
